@@ -96,8 +96,14 @@ def _get_cache_size_313(opname: str) -> int:
 
 
 def findlabels(code, opc):
-    if opc.version_tuple < (3, 10):
+    if opc.version_tuple < (3, 6):
         return findlabels_pre_310(code, opc)
+    elif opc.version_tuple < (3, 10):
+        # 3.6..3.9 is word code: two bytes per instruction, not three.
+        # (Imported here: xdis.wordcode imports this module.)
+        from xdis.wordcode import findlabels as findlabels_wordcode
+
+        return findlabels_wordcode(code, opc)
     else:
         return findlabels_310(code, opc)
 
